@@ -150,19 +150,22 @@ pub fn thread_cpu_seconds() -> Option<f64> {
 }
 
 /// A member of a hostile family went over the soft cap and looks super-polynomial against its
-/// predecessor: measure both again (twice at most), keep the cheapest run of the large member and the
-/// dearest run of the small one, and report only if the verdict stands every time.  A genuine
-/// super-polynomial cost reproduces on every run; a stall of the host does not.
+/// predecessor: measure both twice more and judge the medians of the three measurements of each.  A
+/// genuine super-polynomial cost reproduces on every run; a stall of the host spoils one measurement
+/// and leaves the median alone.
 pub fn confirm_blowup(dt: f64, pt: f64, cap: f64, is_blowup: impl Fn(f64, f64) -> bool, mut rerun_big: impl FnMut() -> f64, mut rerun_small: impl FnMut() -> f64) -> Option<(f64, f64)> {
-    let mut dt = dt;
-    let mut pt = pt;
-    for _ in 0..2 {
-        if !(dt > cap && is_blowup(dt, pt)) {
-            return None;
-        }
-        pt = pt.max(rerun_small());
-        dt = dt.min(rerun_big());
+    if !(dt > cap && is_blowup(dt, pt)) {
+        return None;
     }
+    let mut big = vec![dt];
+    let mut small = vec![pt];
+    for _ in 0..2 {
+        small.push(rerun_small());
+        big.push(rerun_big());
+    }
+    big.sort_by(|a, b| a.partial_cmp(b).unwrap());
+    small.sort_by(|a, b| a.partial_cmp(b).unwrap());
+    let (dt, pt) = (big[1], small[1]);
     if dt > cap && is_blowup(dt, pt) {
         Some((dt, pt))
     } else {
